@@ -9,6 +9,9 @@ package optracker
 //@ spec func ongoing(ph Phase) bool = ph != PhaseError && ph != PhaseDone
 
 // invariant of the operation table: entries are real operations filed under their pin's CID
+//@ guards OperationTracker.mu: operations
+//@ guards Operation.mu: phase, error, ts
+
 //@ spec func tableInv(opt *OperationTracker) bool = forall k cid.Cid :: haskey(opt.operations, k) ==> opt.operations[k] != nil && opt.operations[k].pin != nil && opt.operations[k].pin.Cid == k
 
 //@ func (op *Operation) ToTrackerStatus
@@ -17,7 +20,8 @@ package optracker
 //@   modifies nothing
 
 //@ func (op *Operation) Phase
-//@   property C05 C06
+//@   property C05 C06 C18
+//@   opts own
 //@   ensures res == op.phase
 //@   modifies nothing
 
@@ -32,13 +36,15 @@ package optracker
 //@   modifies nothing
 
 //@ func (op *Operation) SetPhase
-//@   property C05
+//@   property C05 C18
+//@   opts own
 //@   ensures op.phase == ph && op.opType == old(op.opType) && op.pin == old(op.pin) && op.error == old(op.error)
 //@   ensures forall o *Operation :: o != op ==> *o == old(*o)
 //@   modifies heap(Operation)
 
 //@ func (op *Operation) SetError
-//@   property C05
+//@   property C05 C18
+//@   opts own
 //@   ensures op.phase == PhaseError && op.opType == old(op.opType) && op.pin == old(op.pin)
 //@   ensures forall o *Operation :: o != op ==> *o == old(*o)
 //@   modifies heap(Operation)
@@ -59,7 +65,8 @@ package optracker
 // "at most one current operation per CID": the table is a map; an ongoing operation of the
 // same type is kept (nil returned, table unchanged), anything else is cancelled and replaced.
 //@ func (opt *OperationTracker) TrackNewOperation
-//@   property C05
+//@   property C05 C18
+//@   opts own
 //@   requires tableInv(opt) && pin != nil
 //@   ensures [table-invariant] tableInv(opt)
 //@   ensures [dedupe] haskey(old(opt.operations), pin.Cid) && old(opt.operations[pin.Cid].opType) == typ && ongoing(old(opt.operations[pin.Cid].phase)) ==> res == nil && opt.operations == old(opt.operations)
@@ -71,7 +78,8 @@ package optracker
 
 // Clean removes only the identical operation
 //@ func (opt *OperationTracker) Clean
-//@   property C05
+//@   property C05 C18
+//@   opts own
 //@   requires tableInv(opt) && op != nil && op.pin != nil
 //@   ensures [table-invariant] tableInv(opt)
 //@   ensures haskey(old(opt.operations), op.pin.Cid) && old(opt.operations[op.pin.Cid]) == op ==> !haskey(opt.operations, op.pin.Cid)
@@ -82,7 +90,8 @@ package optracker
 
 //@ func (opt *OperationTracker) Status
 //@   requires tableInv(opt)
-//@   property C06
+//@   property C06 C18
+//@   opts own
 //@   ensures res2 <==> haskey(opt.operations, c)
 //@   ensures res2 ==> res1 == opStatus(opt.operations[c].opType, opt.operations[c].phase)
 //@   modifies nothing
@@ -90,7 +99,8 @@ package optracker
 // an operation's report: queued / in-progress / error of the last operation on the CID
 //@ func (opt *OperationTracker) GetExists
 //@   requires tableInv(opt)
-//@   property C06 C05
+//@   property C06 C05 C18
+//@   opts own
 //@   ensures res2 <==> haskey(opt.operations, c)
 //@   ensures res2 ==> res1 != nil && fresh(res1) && res1.Status == opStatus(opt.operations[c].opType, opt.operations[c].phase) && res1.Cid == opt.operations[c].pin.Cid && res1.Peer == opt.pid
 //@   ensures !res2 ==> res1 == nil
@@ -99,7 +109,8 @@ package optracker
 // SetError only touches finished operations (done or already in error), never remote ones
 //@ func (opt *OperationTracker) SetError
 //@   requires tableInv(opt)
-//@   property C05
+//@   property C05 C18
+//@   opts own
 //@   ensures haskey(opt.operations, c) && opt.operations[c].opType != OperationRemote && (old(opt.operations[c].phase) == PhaseDone || old(opt.operations[c].phase) == PhaseError) ==> opt.operations[c].phase == PhaseError
 //@   ensures haskey(opt.operations, c) && !(opt.operations[c].opType != OperationRemote && (old(opt.operations[c].phase) == PhaseDone || old(opt.operations[c].phase) == PhaseError)) ==> opt.operations[c].phase == old(opt.operations[c].phase)
 //@   ensures opt.operations == old(opt.operations)
